@@ -62,6 +62,17 @@ CHECKS["C07"] = dict(
    note="Assumes eval_string bypasses the checker and build(path) runs it first (environment.rs); runaway programs are bounded by the reference interpreter's size limits and the work-limit hook.",
    ref="DESIGN.md section 5 C07")
 
+CHECKS["C05"] = dict(
+   technique="property-based round-trip testing (parse o print) with layout metamorphism and corpus enumeration",
+   text="Every shipped .ucg file and generated programs (all literal forms, extra statement kinds) re-laid-out at token level with random whitespace, CRLF, trailing commas, redundant parentheses and comments (between any tokens, or on their own lines between statements) are formatted through the library path of `ucg fmt` and a sample through the binary (also -w): the result must parse to the same position-free program (field quoting ignored), keep every comment text in order, and formatting it again must return it unchanged.",
+   note="Trusts the engine's AST normaliser and reference lexer (comments); the fixed-point clause is asserted within the property's stated scope (comments on own lines between statements) and counted outside it.",
+   ref="DESIGN.md section 5 C05")
+CHECKS["C10"] = dict(
+   technique="property-based metamorphic testing (prefix runs) + scoping templates decided by the reference interpreter + enumerated must-fail programs",
+   text="Generated programs are evaluated at every statement boundary: a failing prefix must stay failing and each name bound by a prefix must keep its value in every longer prefix; name-collision templates (parameters, callback parameters, module locals and format `item` against outer bindings made before or after; closures called after later bindings; functions returning functions; modules referring to file scope) are compared with the reference interpreter's lexical scoping; rebinding (let and constraint statements) and all 20 reserved words must be rejected.",
+   note="Reserved words are the list the property anchors on (vm.rs + env/true/false); template expectations rest on the reference interpreter's scoping rules.",
+   ref="DESIGN.md section 5 C10")
+
 PENDING = {}
 
 def main():
